@@ -40,7 +40,7 @@ TreeOf(view) == SeqToSet(view)
 RawFiles(raw) == [j \in DOMAIN raw |-> SeqToSet(raw[j])]
 
 UserOps == {"create_group", "set_dataset", "delete", "set_attr", "del_attr",
-            "copy", "move", "require_group"}
+            "copy", "move", "require_group", "copyx", "require_dataset"}
 (* actions of the record protocol that must not change the visible tree     *)
 StutterOps == {"commit", "create_patch", "reopen", "observe", "merge", "flush"}
 (* after these (when successful) every file of the record is committed      *)
